@@ -18,6 +18,8 @@ def run_one(args):
     out = {'function': con.qual, 'key': key, 'cfg': cfg, 'file': con.file, 'obligations': [], 'undecided': None, 'sha': None,
            'violation': None, 'native_cells': 0, 'native_runs': 0, 'bounded_in_D': None, 'crash': None}
     try:
+        if getattr(con, 'bounded_D', None):
+            return run_bounded_D(con, key, cfg, reg, tier, seed, out)
         r = verify_cfg(con, cfg, reg, REPO)
         out['obligations'] = r.obligations; out['undecided'] = r.undecided; out['sha'] = r.sha
         failed = [o for o in r.obligations if o['verdict'] != 'unsat']
@@ -70,6 +72,37 @@ def run_one(args):
                     out['violation'] = {'kind': 'native', 'failure': fail, 'obligations_failed': ['(function undecided: %s)' % r.undecided]}; return out
     except Exception as e:
         out['crash'] = traceback.format_exc()
+    return out
+
+
+def run_bounded_D(con, key, cfg, reg, tier, seed, out):
+    """unrolled symbolic execution: for each concrete D the loops are unrolled and the obligations are quantifier free -- a complete
+    proof for that D and ALL coefficient values, reported as `bounded in D` and never added to the proved counts"""
+    import z3
+    from vc.contract import verify_cfg
+    from lib import native
+    rng = random.Random(seed * 7919 + __import__("zlib").crc32((key + cfg).encode()) % 10007)
+    Ds = con.bounded_D if tier == 'quick' else getattr(con, 'bounded_D_thorough', con.bounded_D)
+    tot = ok = 0; failed = []
+    for D in Ds:
+        r = verify_cfg(con, cfg, reg, REPO, D=D)
+        out['sha'] = r.sha
+        if r.undecided: out['undecided'] = r.undecided; break
+        tot += len(r.obligations); ok += sum(1 for o in r.obligations if o['verdict'] == 'unsat')
+        failed += [dict(o, D=D) for o in r.obligations if o['verdict'] != 'unsat']
+        if failed: break
+    out['bounded_in_D'] = {'D': list(Ds), 'obligations': tot, 'discharged': ok, 'failed': [(f['D'], f['name'], f['verdict']) for f in failed]}
+    has_oracle = type(con).oracle is not __import__('vc.contract', fromlist=['Contract']).Contract.oracle
+    if has_oracle:
+        for D in ((1, 2, 3, 5) if tier == 'quick' else (1, 2, 3, 4, 5, 6, 8)) + ((7, 9, 12, 16) if (failed or out['undecided']) else ()):
+            for (P, shp) in ((1, ()), (2, (2,))):
+                n, fail = native.check_kernel(con, cfg, D, P, shp, rng)
+                out['native_cells'] += n; out['native_runs'] += 1
+                if fail:
+                    out['violation'] = {'kind': 'native', 'failure': fail, 'obligations_failed': [f['name'] for f in failed]}; return out
+    if failed:
+        out['violation'] = {'kind': 'no-input', 'obligations_failed': ['D=%d: %s' % (f['D'], f['name']) for f in failed],
+                            'solver_output': [{'D': f['D'], 'obligation': f['name'], 'verdict': f['verdict'], 'why': f['why']} for f in failed]}
     return out
 
 
